@@ -17,6 +17,7 @@ import (
 	"strconv"
 	"strings"
 	"sync"
+	"time"
 
 	"golang.org/x/net/http/httpguts"
 
@@ -223,12 +224,30 @@ func c20ReplaceEval(f []string) (out string, tags []string) {
 	for _, kv := range c20UnPairs(f[5]) {
 		rep.Set(kv[0], kv[1])
 	}
-	defer func() {
-		if r := recover(); r != nil {
-			out, tags = "PANIC", append(tags, "panic")
-		}
+	// Replace runs under a watchdog: a version that scans inserted text again need not terminate
+	type answer struct {
+		s        string
+		panicked bool
+	}
+	done := make(chan answer, 1)
+	go func() {
+		defer func() {
+			if r := recover(); r != nil {
+				done <- answer{panicked: true}
+			}
+		}()
+		done <- answer{s: rep.Replace(format)}
 	}()
-	res := rep.Replace(format)
+	var res string
+	select {
+	case a := <-done:
+		if a.panicked {
+			return "PANIC", []string{"panic"}
+		}
+		res = a.s
+	case <-time.After(5 * time.Second):
+		return "HANG", []string{"hang"}
+	}
 
 	if !strings.ContainsAny(format, "{}") {
 		tags = append(tags, "trivial-no-brace")
@@ -448,9 +467,9 @@ func c20ReplaceGen(g *hx.Gen) {
 		}
 	}
 	// 4. seeded random formats on seeded random requests
-	N := 4000
+	N := 15000
 	if g.Thorough() {
-		N = 80000
+		N = 250000
 	}
 	for it := 0; it < N; it++ {
 		var b strings.Builder
@@ -470,9 +489,9 @@ func c20ReplaceGen(g *hx.Gen) {
 		c20Case(g, b.String(), hx.Pick(g.Rng, empties), r)
 	}
 	// 5. malformed: random bytes biased towards syntax
-	M := 1500
+	M := 8000
 	if g.Thorough() {
-		M = 30000
+		M = 100000
 	}
 	for it := 0; it < M; it++ {
 		n := g.Rng.Intn(24)
